@@ -82,7 +82,7 @@ def h_encode(kind):
     elif kind == 'SA':
         T = m.Transform
         pn, pid, spi = I('num', 0, 255), I('pid', 0, 3), S('spi', 4)
-        t1 = T(T.Type.ENCR, T.EncrId.ENCR_AES_CBC, I('keylen', 1, 65535))
+        t1 = T(T.Type.ENCR, T.EncrId.ENCR_AES_CBC, I('keylen', 0, 65535))
         t2 = T(T.Type.DH, I('dh', 14, 21))
         p = m.PayloadSA([m.Proposal(pn, pid, spi, [t1, t2])]); t = 33
         tr1 = b'\x03\x00\x00\x0c' + b'\x01\x00\x00\x0c' + b'\x80\x0e' + _be(t1.keylen, 2)
